@@ -593,6 +593,9 @@ func (c *sysCase) raw() string {
 		if k == "!.writeKey" || k == "!.readKey" || k == "!.enabled" {
 			continue
 		}
+		if k == "!.createdAt" {
+			v = "<set>" // the value is the time of creation
+		}
 		out = append(out, k+"="+v)
 	}
 	sort.Strings(out)
@@ -602,7 +605,7 @@ func (c *sysCase) raw() string {
 var sysOps = []opdef{
 	{"AddFact", true, false}, {"RemFact", true, false}, {"AddRule", true, false}, {"RemRule", true, false}, {"EnableRule", true, false},
 	{"SetParents", true, false}, {"SetParentsEmpty", true, false}, {"SetParentsNil", true, false}, {"ClearLocation", true, false}, {"DeleteLocation", true, false},
-	{"action:AddFact", true, true},
+	{"action:AddFact", true, true}, {"CreateLocation", true, false},
 	{"GetFact", false, true}, {"GetRule", false, true}, {"SearchFacts", false, true}, {"SearchFactsInherited", false, true}, {"ListRules", false, true}, {"Query", false, true}, {"ProcessEvent", false, true},
 }
 
@@ -625,6 +628,11 @@ func (c *sysCase) exec(o string, ctx *core.Context) (res string, err error) {
 		_, err = s.SetParents(ctx, "S", []string{})
 	case "SetParentsNil":
 		_, err = s.SetParents(ctx, "S", nil)
+	case "CreateLocation":
+		// writes the creation marker (a property fact) into a location that was used without being created
+		var created bool
+		created, err = s.CreateLocation(ctx, "S")
+		res = fmt.Sprint(created)
 	case "ClearLocation":
 		err = s.ClearLocation(ctx, "S")
 	case "DeleteLocation":
